@@ -24,7 +24,7 @@ Definition code_fixed_N1 := false.
 (* overlay.go: an unanswered tree request is retried (C09-N2) *)
 Definition code_fixed_N2 := false.
 (* network/local.go: send / close under back-pressure (C09-N3) *)
-Definition code_fixed_C09N3 := false.
+Definition code_fixed_C09N3 := true.
 
 (* ---- operations of the harness ------------------------------------------- *)
 
